@@ -113,6 +113,7 @@ type_from_name = function(
     INJ,   # the registry stays one-to-one
   ],
   bindings=RB, props=('C18',))
+type_from_name.defaults = {'base': NONEV, 'allow_register': False}
 
 name_from_type = function(
   V + '::variable_name_from_type', params=[('typ', VType), ('allow_register', BOOL)], free=[('VariableTypeCache', Registry)],
